@@ -285,11 +285,15 @@ def _worker(task):
         if ok is not None:
             outs.add(hash(ok))
         if f:
-            for (c, e, g) in f:
+            for ft in f:
+                c, e, g = ft[0], ft[1], ft[2]
                 k = percl.get(c, 0)
                 percl[c] = k + 1
                 if shrink is not None:
-                    wmin, res = _SHRINKER[1].shrink(c, shrink[0](case), e, g)
+                    w0 = shrink[0](case)
+                    if len(ft) > 3 and ft[3]:
+                        w0 = dict(w0, **ft[3])  # extra witness fields (e.g. the option vector)
+                    wmin, res = _SHRINKER[1].shrink(c, w0, e, g)
                     mk = (c, core.canon_json(wmin))
                     if mk not in minimal and len(minimal) < MIN_CAP:
                         minimal[mk] = (c, wmin, res[0], res[1])
